@@ -1086,6 +1086,33 @@ func wrapForParse(k fragKind, frag string) string {
 	return src
 }
 
+// structMutate changes the fragment by one structural token: an extra or a
+// missing argument, variadic "...", alias "=", channel direction, a label.
+func (g *gen) structMutate(t string) string {
+	type tog struct{ from, to string }
+	togs := []tog{{"...)", ")"}, {" = int", " int"}, {"<-chan ", "chan "}, {"chan<- ", "chan "}, {"chan ", "<-chan "},
+		{"()", "(extra)"}, {", ", ", extra, "}, {"break L0", "break"}, {"continue L0", "continue"}, {"break\n", "break L0\n"},
+		{"[]", "[3]"}, {"*", ""}, {"&", ""}, {":= ", "= "}, {"for range ", "for _ = range "}, {"go ", "defer "}, {" else {", " else if cond {"},
+		{"struct{", "struct{ Extra int; "}, {"interface{", "interface{ Extra(); "}, {"case ", "case extra, "}, {"return ", "return extra, "}}
+	g.r.Shuffle(len(togs), func(i, j int) { togs[i], togs[j] = togs[j], togs[i] })
+	for _, tg := range togs {
+		if strings.Contains(t, tg.from) {
+			// replace one occurrence chosen at random
+			n := strings.Count(t, tg.from)
+			k := g.r.Intn(n)
+			idx := 0
+			for i := 0; i <= k; i++ {
+				j := strings.Index(t[idx:], tg.from)
+				if i == k {
+					return t[:idx+j] + tg.to + t[idx+j+len(tg.from):]
+				}
+				idx += j + len(tg.from)
+			}
+		}
+	}
+	return t
+}
+
 // nearCopy returns code that differs from t in a single token, preferring the
 // tokens go/ast represents only by the validity of a position.
 func (g *gen) nearCopy(t string) string {
@@ -1382,8 +1409,13 @@ func genEngineCases(seed int64, n int, mode string) []Case {
 			switch sel {
 			case 0: // the fragment itself
 				frags = append(frags, p.frag)
-			case 1: // near miss: token mutation outside holes
+			case 1: // near miss: token mutation outside holes, or a structural one-token difference
 				inst, ok := g.tokenMutate(p.frag, p.holes)
+				if g.chance(0.4) {
+					if m := g.structMutate(p.frag); m != p.frag {
+						inst, ok = m, true
+					}
+				}
 				if ok {
 					note += " nearmiss"
 				}
